@@ -138,7 +138,7 @@ func (m MapSchema[K, V]) Unserialize(data any) (any, error) {
 	return result.Interface(), nil
 }
 
-func (m MapSchema[K, V]) validateSchemaCompatibility(schemaType Type) error {
+func (m MapSchema[K, V]) validateSchemaCompatibility(schemaType Type, compared comparedObjects) error {
 	if schemaType.TypeID() != TypeIDMap {
 		return &ConstraintError{
 			Message: fmt.Sprintf("unsupported data type for 'map' type: %T", schemaType),
@@ -165,14 +165,14 @@ func (m MapSchema[K, V]) validateSchemaCompatibility(schemaType Type) error {
 		}
 	}
 	keysType := keysField.Call([]reflect.Value{})[0].Interface()
-	err := m.Keys().ValidateCompatibility(keysType)
+	err := validateCompatibilityIn(m.Keys(), keysType, compared)
 	if err != nil {
 		return &ConstraintError{
 			Message: fmt.Sprintf("unsupported data type for map key: %T, expected %T (%s)", keysType, m.Keys(), err),
 		}
 	}
 	valuesType := valuesField.Call([]reflect.Value{})[0].Interface()
-	err = m.Values().ValidateCompatibility(valuesType)
+	err = validateCompatibilityIn(m.Values(), valuesType, compared)
 	if err != nil {
 		return &ConstraintError{
 			Message: fmt.Sprintf("unsupported data type for map values: %T, expected %T (%s)",
@@ -192,10 +192,14 @@ func (m MapSchema[K, V]) validateSchemaCompatibility(schemaType Type) error {
 }
 
 func (m MapSchema[K, V]) ValidateCompatibility(typeOrData any) error {
+	return m.validateCompatibilityIn(typeOrData, comparedObjects{})
+}
+
+func (m MapSchema[K, V]) validateCompatibilityIn(typeOrData any, compared comparedObjects) error {
 	// Check if it's a schema.Type. If it is, verify it. If not, verify it as data.
 	schemaType, ok := typeOrData.(Type)
 	if ok {
-		return m.validateSchemaCompatibility(schemaType)
+		return m.validateSchemaCompatibility(schemaType, compared)
 	}
 	// It's not a schema type, so now check if it's an actual map
 	v := reflect.ValueOf(typeOrData)
@@ -217,10 +221,10 @@ func (m MapSchema[K, V]) ValidateCompatibility(typeOrData any) error {
 
 	for iter := v.MapRange(); iter.Next(); {
 		k := iter.Key()
-		if err := m.KeysValue.ValidateCompatibility(k.Interface()); err != nil {
+		if err := validateCompatibilityIn(m.KeysValue, k.Interface(), compared); err != nil {
 			return ConstraintErrorAddPathSegment(err, fmt.Sprintf("{%v}", k))
 		}
-		if err := m.ValuesValue.ValidateCompatibility(iter.Value().Interface()); err != nil {
+		if err := validateCompatibilityIn(m.ValuesValue, iter.Value().Interface(), compared); err != nil {
 			return ConstraintErrorAddPathSegment(err, fmt.Sprintf("[%v]", k))
 		}
 	}
